@@ -51,10 +51,12 @@ type Interp struct {
 
 	// access log (C11)
 	accessLog   bool
-	setupPhase  bool
+	trackHeap   bool
+	allocSeq    int
+	sharedSeq   int
+	locs        map[*value]*locInfo
 	objIDs      map[*value]int
 	role        string
-	accesses    []accessRec
 	concreteIn  map[string][]string // concrete-input mode (translator validation)
 	observeLog  []string
 	clock       int64
